@@ -10,8 +10,8 @@ CONSTANTS
   TgtPool <- TgtPoolDef
   WPool <- WPoolDef
   MaxDK = 60
-  Mode = "all"
-  Depth = 2
+  Mode = "rereg"
+  Depth = 3
 INVARIANT AnswersDependOnStateOnly
 PROPERTY QueriesArePure
 PROPERTY FrameOK
